@@ -69,6 +69,22 @@ func ambiguousEmpty(sp *spec.Spec, t *spec.Type, v any) bool {
 			if spec.IsRequired(e.Required, a.Name) || (av != nil && len(ae.Vs) > 0) {
 				return true
 			}
+			if av == nil {
+				// unset optional collection whose validations the empty collection violates
+				// (MinLength >= 1): "unset" and "empty" are one value, the verdicts differ
+				var empty any
+				switch ae.K {
+				case spec.KArray:
+					empty = spec.Arr{}
+				case spec.KMap:
+					empty = spec.MapV{}
+				case spec.KBytes:
+					empty = []byte{}
+				}
+				if len(sp.Check(a.T, empty, "")) > 0 {
+					return true
+				}
+			}
 		}
 		if ae.K == spec.KObject && av != nil && ambiguousEmpty(sp, a.T, av) {
 			return true
